@@ -22,13 +22,13 @@ from world import C_BOOL, C_DICT, C_INT, C_LIST, C_NONE, C_OBJECT, C_STR, C_TUPL
 use_repo()
 
 _META = [0]
-LITS = [0, 1, 2, 3, "a", "b", "ab", 2.5, None]
+LITS = [0, 1, 2, 3, "a", "b", "ab", 2.5, True, False, None]  # bool below int: values of distinct but related types
 H_SEQ, H_COLL, H_MAP = 0, 1, 2
 
 
 def lit_cls(w, i):
     v = LITS[i]
-    return {int: C_INT, str: C_STR, type(None): C_NONE}.get(type(v), w.float_id)
+    return {int: C_INT, bool: C_BOOL, str: C_STR, type(None): C_NONE}.get(type(v), w.float_id)
 
 
 class AnnGen:
